@@ -110,7 +110,7 @@ func (s *sIns) describe() {
 var (
 	synthRegsAll = []expr.Key{"ra", "rb", "rc", "rd", "re", "rf", "rg", "rh", "ri", "rj", "rk", "rl"}
 	synthRegs    = synthRegsAll[:4]
-	synthMems    = []expr.Key{"m0", "m1"}
+	synthMems    = []expr.Key{"m0", "m1", "m2"}
 	// synthSpecialPerMille is the share of instructions with a special type.
 	synthSpecialDenom = 14
 )
@@ -183,26 +183,50 @@ func drawSAddr(t *rapid.T) expr.Expr {
 
 // drawSBody draws the effects of a non-jump instruction.
 func drawSBody(t *rapid.T) []expr.Effect {
-	switch uniformInt(t, 10, "bodyKind") {
+	switch uniformInt(t, 14, "bodyKind") {
 	case 0: // no effects
 		return nil
 	case 1, 2, 3: // alu
 		return []expr.Effect{expr.NewRegStore(drawSValue(t), drawSReg(t, "dst"), drawSWidth(t, "dw"))}
 	case 4, 5: // load
-		k := synthMems[uniformInt(t, 2, "lk")]
+		k := synthMems[uniformInt(t, len(synthMems), "lk")]
 		w := drawSWidth(t, "lw")
 		return []expr.Effect{expr.NewRegStore(expr.NewMemLoad(k, drawSAddr(t), w), drawSReg(t, "ldst"), 8)}
 	case 6, 7: // store
-		k := synthMems[uniformInt(t, 2, "sk")]
+		k := synthMems[uniformInt(t, len(synthMems), "sk")]
 		return []expr.Effect{expr.NewMemStore(drawSValue(t), k, drawSAddr(t), drawSWidth(t, "sw"))}
 	case 8: // read-modify-write (amo like)
-		k := synthMems[uniformInt(t, 2, "ak")]
+		k := synthMems[uniformInt(t, len(synthMems), "ak")]
 		a := drawSAddr(t)
 		w := drawSWidth(t, "aw")
 		ld := expr.NewMemLoad(k, a, w)
 		return []expr.Effect{
 			expr.NewRegStore(ld, drawSReg(t, "adst"), 8),
 			expr.NewMemStore(expr.NewBinary(expr.Add, ld, expr.NewRegLoad(drawSReg(t, "asrc"), w), w), k, a, w),
+		}
+	case 10: // two loads (same or different memory keys) combined into one register
+		k1, k2 := synthMems[uniformInt(t, len(synthMems), "l1k")], synthMems[uniformInt(t, len(synthMems), "l2k")]
+		w := drawSWidth(t, "llw")
+		v := expr.NewBinary(expr.Add, expr.NewMemLoad(k1, drawSAddr(t), w), expr.NewMemLoad(k2, drawSAddr(t), w), 8)
+		return []expr.Effect{expr.NewRegStore(v, drawSReg(t, "lldst"), 8)}
+	case 11: // memory to memory copy, possibly between memory keys
+		k1, k2 := synthMems[uniformInt(t, len(synthMems), "ck1")], synthMems[uniformInt(t, len(synthMems), "ck2")]
+		w := drawSWidth(t, "cw")
+		return []expr.Effect{expr.NewMemStore(expr.NewMemLoad(k1, drawSAddr(t), w), k2, drawSAddr(t), w)}
+	case 12: // load through a loaded pointer (kept inside the window) and a second load
+		k1, k2 := synthMems[uniformInt(t, len(synthMems), "pk1")], synthMems[uniformInt(t, len(synthMems), "pk2")]
+		ptr := expr.NewMemLoad(k1, drawSAddr(t), 1)
+		masked := expr.NewBinary(expr.Nand, expr.NewBinary(expr.Nand, ptr, expr.ConstFromUint[uint8](0x1f), 1), expr.ConstFromUint[uint8](0xff), 1)
+		a := expr.NewBinary(expr.Add, c64(synthWindow), masked, 8)
+		return []expr.Effect{
+			expr.NewRegStore(expr.NewMemLoad(k2, a, drawSWidth(t, "pw")), drawSReg(t, "pdst"), 8),
+			expr.NewRegStore(expr.NewMemLoad(synthMems[uniformInt(t, len(synthMems), "pk3")], drawSAddr(t), 1), drawSReg(t, "pdst2"), 8),
+		}
+	case 13: // two stores (same or different memory keys)
+		k1, k2 := synthMems[uniformInt(t, len(synthMems), "sk1")], synthMems[uniformInt(t, len(synthMems), "sk2")]
+		return []expr.Effect{
+			expr.NewMemStore(drawSValue(t), k1, drawSAddr(t), drawSWidth(t, "s1w")),
+			expr.NewMemStore(drawSValue(t), k2, drawSAddr(t), drawSWidth(t, "s2w")),
 		}
 	default: // two register writes
 		return []expr.Effect{
@@ -239,11 +263,17 @@ func ipEffect(t *rapid.T, targets []ipTarget) expr.Effect {
 		}
 		return c64(p.addr)
 	}
-	var v expr.Expr
-	if len(targets) == 1 {
-		v = mk(targets[0])
-	} else {
-		v = expr.NewLess(expr.NewRegLoad(drawSReg(t, "c1"), 8), expr.NewRegLoad(drawSReg(t, "c2"), 8), mk(targets[0]), mk(targets[1]), 8)
+	cond := func(a, b expr.Expr) expr.Expr {
+		return expr.NewLess(expr.NewRegLoad(drawSReg(t, "c1"), 8), expr.NewRegLoad(drawSReg(t, "c2"), 8), a, b, 8)
+	}
+	// more than two targets nest conditionals, in the true or the false arm
+	v := mk(targets[len(targets)-1])
+	for i := len(targets) - 2; i >= 0; i-- {
+		if len(targets) > 2 && rapid.Bool().Draw(t, "nestLeft") {
+			v = cond(v, mk(targets[i]))
+		} else {
+			v = cond(mk(targets[i]), v)
+		}
 	}
 	// the instruction pointer is written 8 bytes wide, sometimes 4 (all generated
 	// addresses are below 2^32)
@@ -308,8 +338,9 @@ func drawProgramOpt(t *rapid.T, maxBlocks, maxIns int, wild bool) *sProgram {
 			body := drawSBody(t)
 			kind := 0
 			if last && rapid.IntRange(0, 2).Draw(t, "lastJump") != 0 {
-				// terminator: kinds 1 const, 2 cond(const,next), 3 indirect, 4 cond(const,const)
-				kind = rapid.IntRange(1, 4).Draw(t, "termKind")
+				// terminator: kinds 1 const, 2 cond(const,next), 3 indirect, 4 cond(const,const),
+				// 6 cond(indirect,const), 7 cond(const,indirect), 8 three-way with an indirect arm
+				kind = []int{1, 2, 3, 4, 6, 7, 8}[rapid.IntRange(0, 6).Draw(t, "termKind")]
 			} else if rapid.IntRange(0, 7).Draw(t, "fallthroughJump") == 0 {
 				kind = 5 // ip write whose only target is the next instruction
 			}
@@ -374,6 +405,15 @@ func drawProgramOpt(t *rapid.T, maxBlocks, maxIns int, wild bool) *sProgram {
 			s.ip = []ipTarget{{false, 0}}
 		case 4:
 			s.ip = []ipTarget{{true, pick()}, {true, pick()}}
+		case 6:
+			s.ip = []ipTarget{{false, 0}, {true, pick()}}
+		case 7:
+			s.ip = []ipTarget{{true, pick()}, {false, 0}}
+		case 8:
+			s.ip = []ipTarget{{true, pick()}, {false, 0}, {true, pick()}}
+			if rapid.Bool().Draw(t, "k8order") {
+				s.ip[0], s.ip[1] = s.ip[1], s.ip[0]
+			}
 		case 5:
 			s.ip = []ipTarget{{true, s.end()}}
 			if rapid.Bool().Draw(t, "ft2") {
